@@ -49,6 +49,7 @@ an error is not a value). (iii) A thunk forced re-entrantly from inside its own 
 evaluated once per nesting level (both sides again).
 -/
 import ZygoVerif.Proofs.LazyCalls
+import ZygoVerif.Generated.CallEmit
 namespace ZygoVerif.C16
 open ZygoVerif.Core ZygoVerif.VM
 
@@ -273,6 +274,37 @@ theorem every_call_route_resolves_at_run_time (isFn : Nat → Bool) (c : Ctx) (f
   ⟨fun f args hf => compile_call_computed isFn c f args hf,
    fun h args hn => compile_call_by_name isFn c h args hn,
    fun callee args => exec_callExpr fuel callee args⟩
+
+/-- **The code of an ordinary call does not depend on what its head is bound to when the
+caller is compiled.** For every generator state `gs` (function table, live scopes, loops),
+every `known` table and scope predicate, a call by name that is not a self tail call compiles
+to the single instruction `callExpr (.sym h) args` and leaves the generator state alone: whether
+`h` denotes a strict function, a lazy one, a builtin, a non-function or nothing at compile time
+cannot matter — the callee is resolved and the laziness of each argument decided when the
+call runs (`every_call_route_resolves_at_run_time`, `call_prepares_then_enters`), so a later
+redefinition, a parameter / `let` / closure variable of the same name, or a swapped alias is
+honoured. Also behind a self tail call's jump the fallback is that same instruction. -/
+theorem compile_call_independent_of_bindings (isFn isFn' : Nat → Bool) (c c' : Ctx) (gs gs' : GS) (h : String)
+    (args : List Expr) (hn : (c.tail && h == c.funcname) = false) (hn' : (c'.tail && h == c'.funcname) = false) :
+    (compile isFn c (.call (.sym h) args)).run gs = .ok (([.callExpr (.sym h) args], c.tail), gs) ∧
+    ((compile isFn c (.call (.sym h) args)).run gs).map (·.1.1) =
+      ((compile isFn' c' (.call (.sym h) args)).run gs').map (·.1.1) := by
+  rw [compile_call_by_name isFn c h args hn, compile_call_by_name isFn' c' h args hn']
+  exact ⟨rfl, rfl⟩
+
+/-- T1 (regenerated from the Go source on every run, `extract/ex_callemit.go`): where the
+instructions that start a call are built. `CallInstr` — operands evaluated in line, the name
+looked up afterwards — is built for array literals only; `GenerateCallBySymbol` builds
+`CallExprInstr` (and the guard / variadic packing of the self tail call) and nothing else;
+`PushLazyArgInstr` comes from `GenerateCallArgsForFunction` only. -/
+theorem call_emit_sites_expected :
+    (∀ p ∈ Generated.CallEmit.sites, p.2 = "CallInstr" → p.1 = "Generator.GenerateArray") ∧
+    (∀ p ∈ Generated.CallEmit.sites, p.1 = "Generator.GenerateCallBySymbol" →
+       p.2 = "CallExprInstr" ∨ p.2 = "PrepareCallInstr" ∨ p.2 = "TailGuardInstr") ∧
+    (∀ p ∈ Generated.CallEmit.sites, p.2 = "PushLazyArgInstr" → p.1 = "Generator.GenerateCallArgsForFunction") ∧
+    (∀ p ∈ Generated.CallEmit.sites, p.2 = "CallExprInstr" →
+       p.1 = "Generator.GenerateCallBySymbol" ∨ p.1 = "Generator.GenerateDispatch") ∧
+    (("Generator.GenerateCallBySymbol", "CallExprInstr") ∈ Generated.CallEmit.sites) := by decide
 
 /-- **A strict function never receives an unevaluated argument** — the decision points:
 run time (`prepareArgs`): a strict position pushes the value of `evalCallExpr` (above);
